@@ -34,6 +34,12 @@ def run(c):
         for enc in ("sha256WithRSA", "rsassa-pss", "sha1WithRSA", "ecdsa-sha256", "ecdsa-sha384", "ecPublicKey", "ed25519", "dsa-sha256", "sm2-sm3", "sha256"):
             k = len(sscen)
             sscen.append((k, '{"sc":%d,"enc":"%s",' % (k, enc) + l[1:]))
+    # ... and genuine Authenticode signatures whose SpcPeImageData file name (a UCS-2 string) has an odd number of bytes, one byte, none, thousands
+    spc = [l for l in allsym if '"img":"-"' in l and '"cert":"A"' in l and '"expect":"must"' in l and '"ct":"spc"' in l and '"content":"m1"' in l][:2]
+    for l in spc:
+        for nm in ("odd27", "one", "empty", "odd3", "long", "longodd"):
+            k = len(sscen)
+            sscen.append((k, '{"sc":%d,"spcname":"%s",' % (k, nm) + l[1:]))
     hand = ["30", "3000", "3080", "308400000000", "30820400" + "00" * 8, "3003020101", "300b06092a864886f70d010702", "300f06092a864886f70d010702a0023000",
             "3081" + "ff" + "00" * 16, "a0", "06092a864886f70d010702"]
     sscen += [(10 ** 6 + i, json.dumps({"sc": 10 ** 6 + i, "hex": h})) for i, h in enumerate(hand)]
